@@ -254,7 +254,7 @@ func runReplayFile(path string) int {
 			pkg = h.Pkg
 		}
 	}
-	work := filepath.Join(verifDir, "work", "replay-"+rf.Property+fmt.Sprintf("-%d", time.Now().UnixNano()))
+	work := filepath.Join(outDir, "work", "replay-"+rf.Property+fmt.Sprintf("-%d", time.Now().UnixNano()))
 	os.MkdirAll(work, 0o755)
 	defer os.RemoveAll(work)
 	w := map[string]interface{}{"id": "r0", "harness": rf.Harness, "case": rf.Case, "assignment": rf.Assignment}
